@@ -6,7 +6,7 @@ OUT=/var/tmp/suite_$$
 mkdir -p $OUT
 ls /repo/test/*.cpp /repo/test/*/*.cpp | xargs -P16 -I{} sh -c 'g++ -std=c++11 -O0 -I'$INC' -I/repo/external -I/repo/test -c {} -o '$OUT'/$(echo {} | md5sum | cut -c1-12).o 2>'$OUT'/err_$(basename {}).txt || echo COMPILE-FAIL {}'
 g++ $OUT/*.o -o $OUT/suite
-$OUT/suite | tail -4
-rc=${PIPESTATUS[0]}
+$OUT/suite > $OUT/log.txt 2>&1 || true; (grep -B2 -A12 "ERROR:" $OUT/log.txt || true) | head -${SUITE_LINES:-0}; tail -4 $OUT/log.txt
+rc=$(grep -c "Status: SUCCESS" $OUT/log.txt); rc=$((1-rc))
 rm -rf $OUT
 exit $rc
